@@ -3,10 +3,11 @@ import LexgenModel.Exec.Bisim
 import LexgenModel.Exec.MachineWF
 import LexgenModel.Model.TableGen
 import LexgenModel.Model.Parser
+import LexgenModel.Model.ParserDef
 /-!
 # `lexmodel`: line-protocol driver of the executable model (correspondence side; no proofs here)
 -/
-open Lexgen
+open Lexgen hiding ParsedDef parseDef
 
 /-! ## Parsing of the AST/dump syntax -/
 
@@ -430,6 +431,65 @@ def parseLine (toks : List String) : String :=
   | some (r, .other _ :: _) => "ok " ++ showRegex r
   | _ => "err"
 
+/-! ## `PARSEDEF`: the parser of whole definitions on a token list
+
+Token syntax of `PARSEDEF <tokens>`: words separated by blanks, one word per token (it extends the
+syntax of `PARSE`):
+
+* regex tokens, as for `PARSE`: `(` `)` `[` `]` `$` `_` `|` `*` `+` `?` `#` `-`,
+  `id:<name>` (identifier; `rule` and `Error` are `id:rule`, `id:Error`), `c:<n>` (char literal with
+  code point n), `s:<n>,<n>,..` (string literal; `s:` is the empty string);
+* definition tokens: `,` `=>` `=` `;` `>` `let` `type` `{` `}` `->`,
+  `e:<n>` (an opaque Rust expression or type), `attr:<n>` (an opaque outer attribute `#[..]`),
+  `vis:<n>` (an opaque visibility such as `pub`);
+* `=?` is accepted as an abbreviation of the two tokens `=` `?` (that is what it is in Rust), and the
+  bare word `rule` as an abbreviation of `id:rule`;
+* any other word is a token that fits nowhere (`Tok.other`).
+
+The input is the whole definition including the header, e.g.
+`PARSEDEF id:Lexer -> e:0 ; let id:x = c:97 ; rule id:Init { $ id:x > c:98 =? e:1 , } _ ,`.
+
+Output, one line, in the format of the Rust hook (`parse_line` in `verif_hooks.rs`):
+`PARSEDEF OK | errortype | let x <regex> | rule re <regex> [ctx <regex>] kind <none|simple|fallible|infallible> rhs <n> | ruleset Name { | .. | }`
+with regexes in the dump syntax of `showRegex`, or `PARSEDEF ERR` (a `syn` error, which includes a
+token list whose delimiters do not nest), or `PARSEDEF PANIC` (a Rust `panic!`). -/
+
+def parseDToks (w : String) : List DTok :=
+  if w = "," then [.comma] else if w = "=>" then [.fatArrow] else if w = "=" then [.eq]
+  else if w = "=?" then [.eq, .re .question]
+  else if w = ";" then [.semi] else if w = ">" then [.gt] else if w = "let" then [.kwLet]
+  else if w = "type" then [.kwType] else if w = "{" then [.lbrace] else if w = "}" then [.rbrace]
+  else if w = "->" then [.rarrow] else if w = "rule" then [.re (.ident "rule")]
+  else if w.startsWith "e:" then [.expr (toNat! (w.drop 2).toString)]
+  else if w.startsWith "attr:" then [.attr (toNat! (w.drop 5).toString)]
+  else if w.startsWith "vis:" then [.vis (toNat! (w.drop 4).toString)]
+  else [.re (parseTok w)]
+
+def showKind : RuleKind → String
+  | .none => "none"
+  | .simple => "simple"
+  | .fallible => "fallible"
+  | .infallible => "infallible"
+
+def showRB (tbl : List RuleRhs) : RuleOrBinding → String
+  | .binding x re => s!"let {x} {showRegex re}"
+  | .rule r =>
+    let ctx := match r.ctx with
+      | some c => " ctx " ++ showRegex c
+      | none => ""
+    s!"rule re {showRegex r.re}{ctx} kind {showKind (tbl.getD r.rhs .none).kind} rhs {r.rhs}"
+
+def showTopItem (tbl : List RuleRhs) : TopItem → List String
+  | .errorType => ["errortype"]
+  | .rb x => [showRB tbl x]
+  | .ruleSet name rules => [s!"ruleset {name} " ++ "{"] ++ rules.map (showRB tbl) ++ ["}"]
+
+def parseDefLine (toks : List String) : String :=
+  match Lexgen.parseDef (toks.flatMap parseDToks) with
+  | .ok d => " | ".intercalate ("OK" :: d.items.flatMap (showTopItem d.table))
+  | .error .syn => "ERR"
+  | .error .panic => "PANIC"
+
 /-! ## Main loop -/
 
 def splitOnBar (line : String) : List (List String) := (line.splitOn ";").map words
@@ -503,6 +563,8 @@ def main : IO Unit := do
       for l in runCase prog pd dump model line do stdout.putStrLn l
     else if line.startsWith "RM " then
       stdout.putStrLn ("RM " ++ rangeMapLine (line.drop 3).toString)
+    else if line.startsWith "PARSEDEF" then
+      stdout.putStrLn ("PARSEDEF " ++ parseDefLine (words (line.drop 8).toString))
     else if line.startsWith "PARSE" then
       stdout.putStrLn ("PARSE " ++ parseLine (words (line.drop 5).toString))
     else if line.startsWith "TG" then
